@@ -122,6 +122,14 @@ class FuncC:
         self.witness_bind[name] = (FunS(args, res), bound_to)
         return self
 
+    def witness(self, name, sort, bound_to):
+        """existential VALUE of the postcondition (e.g. an array of chunk offsets): callers get a fresh constant `name` per call
+        (also exported to them as ghost local g_<name>); the callee proves its postcondition with `name` := its ghost local `bound_to`"""
+        if not hasattr(self, "witness_vals"):
+            self.witness_vals = {}
+        self.witness_vals[name] = (sort, bound_to)
+        return self
+
     def default_expr(self, param, expr):
         """value of an omitted argument when the real default is not a literal (evaluated as a contract expression)"""
         if not hasattr(self, "default_exprs"):
